@@ -50,7 +50,11 @@ func runSpec(s spec) vh.Case {
 		c = genInner(r, deg, parts[2])
 	case "C":
 		deg, _ := strconv.Atoi(parts[1])
-		c = genClone(r, deg)
+		variant := ""
+		if len(parts) > 2 {
+			variant = parts[2]
+		}
+		c = genClone(r, deg, variant)
 	case "P":
 		g, _ := strconv.Atoi(parts[1])
 		c = genConc(r, g, len(parts) > 2 && parts[2] == "stress")
@@ -195,6 +199,10 @@ func main() {
 			{"I/2/sweep", 3, 50}, {"I/3/sweep", 2, 50}, {"I/4/sweep", 2, 40}, {"I/8/sweep", 1, 30},
 			{"C/2", 18, 350}, {"C/3", 12, 250}, {"C/4", 8, 150}, {"C/8", 4, 100},
 			{"P/2", 4, 60}, {"P/3", 4, 60}, {"P/4", 3, 60},
+			// targeted classes: every limit / every stop count on trees of three levels; stored-again keys; clones of a full root
+			{"W/limits", 12, 150}, {"I/2/stops", 4, 40}, {"I/3/stops", 4, 40},
+			{"I/2/reinsert", 6, 60}, {"I/3/reinsert", 5, 50}, {"I/4/reinsert", 4, 40}, {"I/8/reinsert", 3, 30},
+			{"C/2/fullroot", 8, 80}, {"C/3/fullroot", 8, 80}, {"C/4/fullroot", 6, 60}, {"C/8/fullroot", 4, 40},
 		}
 		if e.Thorough || e.Search {
 			vols = append(vols, vol{"I/5/mix", 0, 150}, vol{"I/16/mix", 0, 60}, vol{"I/32/mix", 0, 30}, vol{"C/5", 0, 80})
@@ -217,7 +225,7 @@ func main() {
 		// mix the classes so that the case files the driver cuts are of similar size
 		e.Rnd.Shuffle(len(specs), func(i, j int) { specs[i], specs[j] = specs[j], specs[i] })
 		supervise(e, specs)
-		e.Meta["generator"] = "c03/3"
+		e.Meta["generator"] = "c03/4"
 	})
 }
 
